@@ -136,7 +136,10 @@ to_docstring = Contract(
     properties=["C03", "C02", "C08"],
     note="ReST, no word wrap, indent level 2, default text off, prose without a default sentence; emit_param_str, multiline, indent_all_but_first and textwrap.indent are "
          "opaque and logged: the contract pins which entries are rendered, in which order, and how they are joined",
-    cases=[_td_case("one-param,types", _td_ir(1), True, _NOD), _td_case("one-param,no-types", _td_ir(1), False, _NOD), _td_case("no-params", _td_ir(0), True)],
+    cases=[_td_case("one-param,types", _td_ir(1), True, _NOD), _td_case("one-param,no-types", _td_ir(1), False, _NOD), _td_case("no-params", _td_ir(0), True),
+           _td_case("one-param,default", ("dict", {"name": "str", "doc": "str", "params": ("dict", {"p0": ("dict", {"typ": "str", "doc": "str", "default": "int"})}), "returns": None}),
+                    False, ["intermediate_repr['params']['p0']['doc'] != ''"])],
+    ghosts={"~doc, default = extract_default(": [("g_announced", "default")]},
     use_contract_for=["doctrans.defaults_utils:extract_default", "doctrans.defaults_utils:needs_quoting"],
     ensures=[
         Clause("TD-header", "result[:1] == '\\n' and log_indent_args[0][0] == old_intermediate_repr['doc'] and log_indent_args[0][1] == %s" % _SEP,
@@ -147,6 +150,11 @@ to_docstring = Contract(
                when=["one-param,types"], note="C03 (types in the docstring): the prose line, then the type line of the same parameter, each on its own indented line"),
         Clause("TD-entry-no-types", "log_emit_param_str_n == 1 and log_emit_param_str_kwargs[0]['emit_type'] == False", when=["one-param,no-types"],
                note="inline types: no :type line is rendered"),
+        Clause("TD-frame", "list(intermediate_repr['params'].keys()) == ['p0'] and intermediate_repr['params']['p0']['typ'] == old_intermediate_repr['params']['p0']['typ'] "
+                           "and (g_announced is not None or (intermediate_repr['params']['p0']['default'] == old_intermediate_repr['params']['p0']['default'] "
+                           "and typeis(intermediate_repr['params']['p0']['default'], 'int')))", when=["one-param,default"],
+               note="what to_docstring does to the description it is handed (the emitters hand it their own copy and read that copy afterwards): names and types stay; "
+                    "the default is rewritten ONLY when the prose itself announces one (extract_default returned a value) - the frame the round-trip laws assume of it"),
         Clause("TD-no-params", "log_emit_param_str_n == 0 and result == '\\n' + log_indent_results[0] + '\\n' + %s" % _SEP, when=["no-params"], note="no entry is invented"),
     ],
     canaries=["result == ''"],
